@@ -320,8 +320,6 @@ Definition prim_c08 (p : prim) : Prop :=
       Forall (fun b => no_escape b = true) (jo_prefix JO ip mask)
   (* encoding/base64 *)
   | PCBOR s => jo_b64 JO s = b64enc (length s) s /\ Forall JsonEncP.b64char (jo_b64 JO s)
-  | PDur u true d => int64_ok (Z.quot d u)                 (* not MinInt64 / -1 *)
-  | PDurs u true l => Forall (fun d => int64_ok (Z.quot d u)) l
   | _ => True
   end.
 
@@ -413,12 +411,12 @@ Proof.
   apply (Eq3_same _ (JStr (go_runes (jo_time JO (secs, 0))))). apply Json_quoted_plain. apply H_time_plain.
 Qed.
 
-Lemma eq3_dur u i d : (i = true -> int64_ok (Z.quot d u)) ->
+Lemma eq3_dur u i d :
   exists t, dur_json Orc f64_of_dur u i d = Some t /\ Eq3 t (dur_jtxt u i d).
 Proof.
-  intros Hi. unfold dur_json, dur_jtxt, duration_txt. destruct i.
-  - rewrite wrap64_id by (apply Hi; reflexivity). eexists. split; [reflexivity|].
-    cbn [mk_dval d_ns]. apply (Eq3_same _ (JNum (print_Z (Z.quot d u)))). apply print_Z_Json.
+  unfold dur_json, dur_jtxt, duration_txt. destruct i.
+  - eexists. split; [reflexivity|].
+    cbn [mk_dval d_ns]. apply (Eq3_same _ (JNum (print_Z (wrap64 (Z.quot d u))))). apply print_Z_Json.
   - cbn [mk_dval d_quot]. apply eq3_f64.
 Qed.
 
@@ -455,9 +453,9 @@ Proof.
   - destruct (eq3_slice_opt (time_json Orc f64_of_time) (fun t => quoted (jo_time JO t)) l) as (js & Ea & E).
     { intros [secs nanos] Hin. rewrite Forall_forall in C8. specialize (C8 _ Hin). cbn [snd] in C8. subst nanos. apply eq3_time. }
     rewrite Ea. eexists; split; [reflexivity|exact E].
-  - apply eq3_dur. intros ->. exact C8.
+  - apply eq3_dur.
   - destruct (eq3_slice_opt (dur_json Orc f64_of_dur unit useInt) (dur_jtxt unit useInt) l) as (js & Ea & E).
-    { intros d Hin. apply eq3_dur. intros ->. rewrite Forall_forall in C8. apply C8; auto. }
+    { intros d Hin. apply eq3_dur. }
     rewrite Ea. eexists; split; [reflexivity|exact E].
   - destruct m as [j|e]; (eexists; split; [reflexivity|]).
     + destruct C8 as [v J]. eapply Eq3_same; exact J.
